@@ -208,6 +208,14 @@ class MonitoredList(MonitoredContainer, list):
             start, stop, step = idx.indices(len(self))
             # counting down, indices() gives -1 for "down to the first element", which a slice reads as the last one
             idx = slice(start, None if step < 0 and stop < 0 else stop, step)
+            value = list(value)
+            # an extended slice takes exactly as many values as it has positions: nothing is recorded for a write the
+            # list rejects
+            positions = len(range(start, stop, step))
+            if step != 1 and len(value) != positions:
+                raise ValueError(
+                    f"attempt to assign sequence of size {len(value)} to extended slice of size {positions}"
+                )
             value = [self._on_add(v) for v in value]
         else:
             idx = self._position_now(idx)
@@ -258,6 +266,8 @@ class MonitoredSet(MonitoredContainer, set):
     def _add_item(
         self, value, inferred: bool = False, add_relation_to_the_graph: bool = True
     ):
+        # a value the set rejects (it cannot be hashed) is not recorded either
+        hash(value)
         value = self._on_add(
             value,
             inferred=inferred,
